@@ -27,7 +27,7 @@ type c27Case struct {
 }
 
 var c27Channels = []string{"a", "b", "c"}
-var c27Kinds = []string{"honest", "honest", "honest", "tampered-body", "channel-rewritten", "signed-for-other-channel", "other-signer", "wrong-context", "empty-channel", "duplicate"}
+var c27Kinds = []string{"honest", "honest", "honest", "tampered-body", "channel-rewritten", "signed-for-other-channel", "other-signer", "other-signer-with-key", "wrong-context", "empty-channel", "duplicate"}
 
 func genC27(t *rapid.T) c27Case {
 	c := c27Case{Subs: rapid.IntRange(0, 7).Draw(t, "subs")}
